@@ -451,7 +451,17 @@ class Models:
         @R(r"FnMut<.*>>::call_mut$|FnOnce<.*>>::call_once$|Fn<.*>>::call$")
         def _call_mut(ex, c, a):
             args = a[1] if isinstance(a[1], list) else [a[1]]
-            return ex.call_closure(a[0], args)
+            f0 = a[0]
+            if isinstance(f0, Ref):
+                try:
+                    f0.get()
+                except (KeyError, IndexError):
+                    # a capture-less closure is a zero-sized value that the MIR never materialises
+                    m = re.match(r"^<(\{closure@[^}]*\}) as ", c)
+                    if not m:
+                        raise Unsupported("call through an uninitialised closure local: " + c)
+                    f0 = ClosureV(m.group(1), [])
+            return ex.call_closure(f0, args)
 
 def struct_eq(ex, x, y):
     if isinstance(x, (SV, SB)) or isinstance(y, (SV, SB)):
